@@ -126,19 +126,42 @@ class Connection:
         self.work = store.committed.snapshot()
         self.in_tx = False
         self.closed = False
+        self.savepoints = []  # [(name, snapshot, started_the_transaction)]
+
+    @property
+    def in_transaction(self):
+        return self.in_tx
 
     def cursor(self):
         return Cursor(self)
 
-    def commit(self):
-        self.mod.tick("before commit")
+    def execute(self, sql, params=()):
+        return self.cursor().execute(sql, params)
+
+    def __enter__(self):
+        return self
+
+    def __exit__(self, et, ev, tb):
+        if et is None:
+            self.commit()
+        else:
+            self.rollback()
+        return False
+
+    def _publish(self):
         self.store.committed = self.work.snapshot()
         self.in_tx = False
+        self.savepoints = []
+
+    def commit(self):
+        self.mod.tick("before commit")
+        self._publish()
         self.mod.tick("after commit")
 
     def rollback(self):
         self.work = self.store.committed.snapshot()
         self.in_tx = False
+        self.savepoints = []
 
     def close(self):
         self.closed = True  # uncommitted work is discarded
@@ -200,6 +223,47 @@ class Cursor:
             self._delete()
         elif kw == "SELECT":
             self._select()
+        elif kw == "SAVEPOINT":
+            self.eat()
+            name = self.eat()[1].lower()
+            self.conn.savepoints.append((name, self.conn.work.snapshot(), not self.conn.in_tx))
+            self.conn.in_tx = True  # a savepoint outside a transaction starts one
+        elif kw == "RELEASE":
+            self.eat()
+            if self.iskw("SAVEPOINT"):
+                self.eat()
+            name = self.eat()[1].lower()
+            idx = self._find_savepoint(name)
+            started = self.conn.savepoints[idx][2]
+            del self.conn.savepoints[idx:]
+            if started and idx == 0:
+                self.conn._publish()  # releasing the outermost savepoint commits
+        elif kw == "ROLLBACK":
+            self.eat()
+            if self.iskw("TRANSACTION"):
+                self.eat()
+            if self.iskw("TO"):
+                self.eat()
+                if self.iskw("SAVEPOINT"):
+                    self.eat()
+                name = self.eat()[1].lower()
+                idx = self._find_savepoint(name)
+                self.conn.work = self.conn.savepoints[idx][1].snapshot()
+                del self.conn.savepoints[idx + 1:]
+            else:
+                self.conn.rollback()
+        elif kw in ("COMMIT", "END"):
+            self.eat()
+            if self.iskw("TRANSACTION"):
+                self.eat()
+            self.conn._publish()
+        elif kw == "BEGIN":
+            self.eat()
+            while self.peek()[0] == "id":
+                self.eat()
+            if self.conn.in_tx:
+                raise ModelGap("BEGIN inside a transaction")
+            self.conn.in_tx = True
         else:
             raise ModelGap("SQL statement outside the modelled subset: " + sql)
         if self.i != len(self.t):
@@ -208,6 +272,12 @@ class Cursor:
             raise ModelGap("unused SQL parameters: " + sql)
         self.conn.mod.tick("after " + sql[:24])
         return self
+
+    def _find_savepoint(self, name):
+        for i in range(len(self.conn.savepoints) - 1, -1, -1):
+            if self.conn.savepoints[i][0] == name:
+                return i
+        raise ModelGap("no such savepoint " + name)
 
     # ------------------------------------------------------------------ parsing helpers
     def peek(self):
@@ -322,6 +392,12 @@ class Cursor:
 
     def _insert(self):
         self.eat("INSERT")
+        conflict = None
+        if self.iskw("OR"):
+            self.eat()
+            conflict = self.eat()[1].upper()
+            if conflict not in ("IGNORE", "REPLACE"):
+                raise ModelGap("INSERT OR " + conflict)
         self.eat("INTO")
         tb = self.table()
         cols = tb.cols
@@ -360,7 +436,23 @@ class Cursor:
         for c in tb.notnull:
             if row[c] is None:
                 raise IntegrityError("NOT NULL constraint failed")
-        self._check_unique(tb, row)
+        try:
+            self._check_unique(tb, row)
+        except IntegrityError:
+            if conflict == "IGNORE":
+                return
+            if conflict == "REPLACE":
+                keep = []
+                for r in tb.rows:
+                    clash = False
+                    for key in (tb.pk, tb.uniq):
+                        if key and all(r[c] == row[c] for c in key):
+                            clash = True
+                    if not clash:
+                        keep.append(r)
+                tb.rows = keep
+            else:
+                raise
         if rid > tb.max_rowid_ever:
             tb.max_rowid_ever = rid
         tb.rows.append(row)
